@@ -283,6 +283,7 @@ fn gen_kind(r: &mut Rng, k: &str) -> Value {
         "Bo" => json!({"b": r.chance(1, 2)}),
         "Sm" => jv_s(&{ let n = r.below(6); (0..n).map(|_| *r.pick(&["a", "b", "c", "é", "日"])).collect::<String>() }),
         "X" => jv_x(&gen_bytes(r)),
+        "Xu" => jv_x(&if r.chance(1, 6) { gen_bytes(r) } else { gen_str(r).into_bytes() }),
         "X4" => jv_x(&{ let n = if r.chance(1, 6) { r.below(10) as usize } else { 4 }; (0..n).map(|_| r.below(256) as u8).collect::<Vec<_>>() }),
         "X8" => jv_x(&{ let n = if r.chance(1, 6) { r.below(12) as usize } else { 8 }; (0..n).map(|_| r.below(256) as u8).collect::<Vec<_>>() }),
         "D" => json!({"d": gen_date(r)}),
@@ -294,7 +295,7 @@ fn gen_kind(r: &mut Rng, k: &str) -> Value {
     }
 }
 fn kind_type(k: &str) -> &'static str {
-    match k { "J" => "j", "Dm" => "d", "Rv" | "Md" | "Cv" | "I" | "N" | "P" | "R" | "C" | "I32" | "M" | "K" | "Sh" | "Z" | "Zp" | "Pn" | "Wb" | "Wn" => "i", "B" | "Bo" => "b", "X" | "X4" | "X8" => "x", "D" => "d", _ => "s" }
+    match k { "J" => "j", "Dm" => "d", "Rv" | "Md" | "Cv" | "I" | "N" | "P" | "R" | "C" | "I32" | "M" | "K" | "Sh" | "Z" | "Zp" | "Pn" | "Wb" | "Wn" => "i", "B" | "Bo" => "b", "X" | "Xu" | "X4" | "X8" => "x", "D" => "d", _ => "s" }
 }
 
 /// (tag, sql name, argument kinds). A trailing "*" on the last kind = variadic (1..4 of that kind).
@@ -334,7 +335,7 @@ const FUNCS: &[(&str, &str, &[&str])] = &[
     ("to_big_endian_64", "to_big_endian_64", &["I"]), ("from_big_endian_64", "from_big_endian_64", &["X8"]),
     ("to_big_endian_32", "to_big_endian_32", &["J"]), ("from_big_endian_32", "from_big_endian_32", &["X4"]),
     ("url_encode", "url_encode", &["S"]), ("url_decode", "url_decode", &["Ue"]),
-    ("to_utf8", "to_utf8", &["S"]), ("from_utf8", "from_utf8", &["X"]),
+    ("to_utf8", "to_utf8", &["S"]), ("from_utf8", "from_utf8", &["Xu"]),
     // dates
     ("year", "year", &["D"]), ("month", "month", &["D"]), ("day", "day", &["D"]), ("quarter", "quarter", &["D"]),
     ("day_of_week", "day_of_week", &["D"]), ("day_of_year", "day_of_year", &["D"]), ("last_day_of_month", "last_day_of_month", &["D"]),
